@@ -156,6 +156,8 @@ def variants(mode_name, rng, tier):
         out.append(('no-gopclntab', {'rename': ['.gopclntab', '.xopclntab']}))
         out.append(('no-text', {'rename': ['.text', '.txet']}))
         out.append(('no-symtab', {'drop_symtab': True}))
+        out.append(('pclntab-data-beyond-eof', {'sec_off': ['.gopclntab', 1 << 40]}))
+        out.append(('section-table-beyond-eof', {'shoff': 1 << 40}))
         out.append(('dup-symbol', {'dup': True}))
     return out
 
@@ -170,6 +172,10 @@ def apply_variant(e, spec, comp):
         vbias = (-spec['syms']) & M64
     if 'rename' in spec:
         e.rename_section(spec['rename'][0].encode(), spec['rename'][1].encode())
+    if 'sec_off' in spec:
+        e.set_section_offset(spec['sec_off'][0].encode(), spec['sec_off'][1])
+    if 'shoff' in spec:
+        e.set_shoff(spec['shoff'])
     if spec.get('drop_symtab'):
         e.drop_symtab()
     if spec.get('dup'):
@@ -178,10 +184,12 @@ def apply_variant(e, spec, comp):
 
 
 def describe_tokens(desc, facts):
-    t = [f'mf={facts["mf"]:#x}', f'mv={facts["mv"]:#x}', 'af=' + esc(AF), 'av=' + esc(AV), 'elf=ok',
+    t = [f'mf={facts["mf"]:#x}', f'mv={facts["mv"]:#x}', 'af=' + esc(AF), 'av=' + esc(AV), 'elf=ok' if desc.get('elf', True) else 'elf=bad',
          'text=-' if desc['text'] is None else f'text={desc["text"]:#x}']
     if desc['pcln'] is None:
         t.append('pcln=-')
+    elif desc['pcln'] == 'bad':
+        t.append('pcln=bad')
     else:
         t.append(f'pcln={len(desc["pcln"])}')
         t += [f'{esc(n)}@{o:#x}' for n, o in desc['pcln']]
@@ -227,7 +235,7 @@ def near_miss(name, rng):
 
 def make_queries(desc, comp, rng, full, nmiss):
     """List of (query token, tag).  full: every function / symbol of the file; else a sample plus everything generated."""
-    fn = [n for n, _ in (desc['pcln'] or [])]
+    fn = [n for n, _ in (desc['pcln'] if isinstance(desc['pcln'], list) else [])]
     sy = [n for n, _ in (desc['syms'] or [])]
     gen_f = [x.encode() for x in comp['funcs'] + comp['methods']]
     gen_v = [x.encode() for x in comp['vars']]
@@ -286,7 +294,7 @@ def oracle(case, q, obs, rt):
     """The property on what the real process did for one query.  Returns None or the complaint."""
     kind, name = q[0], q[2:]
     d = case['desc']
-    readable = d['text'] is not None and d['pcln'] is not None
+    readable = d.get('elf', True) and d['text'] is not None and d['pcln'] not in (None, 'bad')
     if obs is None:
         return 'no observation (process died?)'
     if obs.startswith('panic') or obs in ('bad-query', 'err-with-addr'):
@@ -349,7 +357,7 @@ def run_case(case, exe):
 
 def tables_of(desc):
     fn, sn = {}, {}
-    for n, o in desc['pcln'] or []:
+    for n, o in (desc['pcln'] if isinstance(desc['pcln'], list) else []):
         fn.setdefault(esc(n), []).append(o)
     for n, v in desc['syms'] or []:
         sn.setdefault(esc(n), []).append(v)
@@ -376,9 +384,9 @@ def prepare(tier, rng, comp_spec, only=None):
             if spec:
                 open(path, 'wb').write(e.bytes())
                 os.chmod(path, 0o755)
-            desc = c10elf.Elf(e.bytes()).describe()      # re-read the patched image from scratch
+            desc = c10elf.describe_bytes(e.bytes())      # re-read the patched image from scratch
             fn, sn = tables_of(desc)
-            cases.append({'id': cid, 'mode': mode, 'variant': vname, 'spec': spec, 'binary': path, 'desc': desc, 'vbias': vbias,
+            cases.append({'fnames_raw': [n for n, _ in (desc['pcln'] if isinstance(desc['pcln'], list) else [])], 'id': cid, 'mode': mode, 'variant': vname, 'spec': spec, 'binary': path, 'desc': desc, 'vbias': vbias,
                           'fnames': fn, 'snames': sn, 'facts': facts_of(path, 'c10-' + cid), 'comp': comp})
     return cases, comp
 
@@ -403,7 +411,7 @@ def run(tier):
             # second history of the same executable: ExposeFunction is the very first call of the process
             h2 = dict(case)
             h2['id'] = case['id'] + '.expose-first'
-            fnl = [n for n, _ in (case['desc']['pcln'] or [])] or [x.encode() for x in comp['funcs']]
+            fnl = list(case['fnames_raw']) or [x.encode() for x in comp['funcs']]
             pick = [fnl[r.below(len(fnl))] for _ in range(40)]
             h2['queries'] = [('x:' + esc(n), 'expose-first') for n in pick] + [('f:' + esc(n), 'func') for n in pick] + \
                             [('x:' + esc(n), 'expose') for n in pick] + [('v:' + esc(AV.encode()), 'sym')]
@@ -462,10 +470,10 @@ def run(tier):
     per_mode = {}
     for case in cases:
         d = case['desc']
-        names = [n for n, _ in d['pcln'] or []]
+        names = case['fnames_raw']
         per_mode[case['id']] = {
             'what': case['mode']['what'], 'text': None if d['text'] is None else hex(d['text']),
-            'pclntab_functions': None if d['pcln'] is None else len(names), 'pclntab_names_occurring_twice_or_more (first wins; exactness judged per returned entry)':
+            'pclntab_functions': len(names) if isinstance(d['pcln'], list) else d['pcln'], 'pclntab_names_occurring_twice_or_more (first wins; exactness judged per returned entry)':
                 len(names) - len(set(names)), 'elf_symbols': None if d['syms'] is None else len(d['syms']),
             'anchor_mem': hex(case['facts']['mf']), 'registered_vars': case['facts']['nvars'], 'registered_funcs': case['facts']['nfuncs']}
     out.coverage = {
